@@ -286,6 +286,9 @@ fn honest(env: &Env) -> BoxedStrategy<(usize, Vec<u8>, Vec<u8>, Vec<u8>, usize)>
 
 impl Sub for VerifyDiff {
     type Case = VerifyCase;
+    fn restrictable(&self) -> bool {
+        true
+    }
     fn name(&self) -> &'static str {
         "verify_vs_spec"
     }
